@@ -57,11 +57,12 @@ var c16Replies = []string{"handshake", "handshake-long", "err-conflict", "err-ho
 
 func init() {
 	register(&PropDef{
-		ID:   "C16",
-		Rule: "scenario = (server stream id over attribute-legal text incl. escaped metacharacters, non-ASCII, empty, long; secret; reply alphabet {handshake, stream errors, unexpected element, malformed, close}; header variant; delay; segmentation); non-trivial = the component sent its <handshake>; distinct = distinct (scenario hash, schedule hash)",
-		Real: []string{"xmpp.Component (Connect/Resume, handshake, recv)", "xmpp.XMPPTransport", "stanza.InitStream / NextPacket"},
-		Stub: []string{"TCP (simnet)", "XMPP component server (scripted model; digest recomputed by the harness with crypto/sha1)", "clock (synctest)", "goroutine scheduling (token scheduler)"},
-		Run:  runC16,
+		ID:    "C16",
+		Rule:  "scenario = (server stream id over attribute-legal text incl. escaped metacharacters, non-ASCII, empty, long; secret; reply alphabet {handshake, stream errors, unexpected element, malformed, close}; header variant; delay; segmentation); non-trivial = the component sent its <handshake>; distinct = distinct (scenario hash, schedule hash)",
+		Real:  []string{"xmpp.Component (Connect/Resume, handshake, recv)", "xmpp.XMPPTransport", "stanza.InitStream / NextPacket"},
+		Stub:  []string{"TCP (simnet)", "XMPP component server (scripted model; digest recomputed by the harness with crypto/sha1)", "clock (synctest)", "goroutine scheduling (token scheduler)"},
+		Run:   runC16,
+		Reach: []string{"c16.reconnect"},
 	})
 }
 
